@@ -771,6 +771,42 @@ def thread_scenarios(chk, rng, quick_n, thorough_n, with_cancel=True):
     return out
 
 
+def write_fault_family(chk, drv, root):
+    """No deadlock when a database write fails while other completions are queued: the engine reports the error and cancels the build; build()
+    must RETURN (with failure) whatever was completing at that moment, under every completion schedule, and later builds over the same database
+    (fault gone) must equal a brand-new engine.  The fault is injected by the driver's BuildDB wrapper (`failwrite n`)."""
+    import enginechk as K
+    n = hangs = 0
+    for w in (3, 5):
+        for nth in (1, 2, 3, w + 1):
+            for sched in ("sync", "defer:3", "mixed:5", "threads:2:20000", "threads:7:0"):
+                L = ["db 1", "failwrite %d" % nth] + ["rule %d sig=0 obs=1" % i for i in range(w)] + \
+                    ["rule 8 sig=0 obs=0 req=%s" % ",".join(str(i) for i in range(w)), "rule 9 sig=0 obs=0 req=8"] + ["set %d 1" % i for i in range(w)] + \
+                    ["build 9 sched=%s" % sched, "failwrite 0", "restart", "set 0 2", "build 9", "fresh 9", "build 9", "fresh 9"]
+                wd = os.path.join(root, "wf%d" % n)
+                n += 1
+                rc, out, err, sp, tp = enginelib.run_impl(drv, L, wd, timeout=30)
+                rp = dict(scenario=L, implementation=out[-80:], stderr=err[-600:])
+                if rc == -9:
+                    hangs += 1
+                    chk.violation("deadlock-on-write-fault", "build() did not return within 30 s after setRuleResult failed for write number %d (schedule %s, %d inputs completing together)" % (nth, sched, w),
+                                  rp, found_input=True, broken="c06 oracle: no deadlock")
+                    if hangs >= 2:
+                        return n
+                    continue
+                if rc != 0:
+                    chk.violation("driver-crash", "engine_driver exited with status %s after an injected write fault" % rc, rp, found_input=True, broken="c06 oracle: termination")
+                    continue
+                builds = K.parse_impl(out)
+                if not builds or not (builds[0]["result"] or "").startswith("result EMPTY") and nth <= w + 2 and any(l.startswith("error") for l in builds[0]["other"]):
+                    chk.violation("write-fault-not-failure", "a build in which a database write failed returned %r" % (builds[0]["result"] if builds else None), rp, found_input=True,
+                                  broken="c06 oracle: a failed write fails the build")
+                for key, what in K.oracle_c01(builds[1:]):
+                    chk.violation(key + "-after-write-fault", what, rp, found_input=True, broken="c06 oracle: later builds are clean")
+                chk.count(("wf", w, nth, sched), n=3)
+    return n
+
+
 def run(chk):
     drv = vlib.build_drivers(["engine_driver"])["engine_driver"]
     model = vlib.model_bin("handshake")
@@ -783,6 +819,7 @@ def run(chk):
     shutil.rmtree(root, ignore_errors=True)
     os.makedirs(root, exist_ok=True)
     try:
+        chk.cov["write_fault_scenarios"] = write_fault_family(chk, drv, root)
         return run_in(chk, drv, model, emodel, root)
     finally:
         try:
